@@ -798,6 +798,20 @@ func (se *SpecEnv) call(x *ast.CallExpr) (Val, error) {
 		fv, _ := fc.val(fn)
 		fc.vc.declareFun("closureFn", []string{"Int"}, "Int")
 		return Val{T: mkAnd(mkNot(mkEq(v.T, "0")), mkEq("(closureFn "+v.T+")", fv.T)), S: SBool, Typ: tBool}, nil
+	case "lastrecv":
+		// lastrecv(c): the last value received from channel c by this function (volatile across calls and loops)
+		if err := argc(1); err != nil {
+			return Val{}, err
+		}
+		c, err := se.expr(x.Args[0])
+		if err != nil {
+			return Val{}, err
+		}
+		ct, ok := c.Typ.Underlying().(*types.Chan)
+		if !ok {
+			return Val{}, fmt.Errorf("lastrecv needs a channel")
+		}
+		return Val{T: sel(fc.compAt(se.st, ghLastRecv, arraySort("Int")), c.T), S: SInt, Typ: ct.Elem()}, nil
 	case "chanlog":
 		if err := argc(2); err != nil {
 			return Val{}, err
